@@ -4,6 +4,7 @@
 //!   yvx-conform replay <cases.ndjson> --out <file>
 //!   yvx-conform buildinfo
 mod frames;
+mod gen_tf;
 mod gen_yuv;
 mod util;
 
@@ -65,9 +66,12 @@ fn main() {
                 "C01" => gen_yuv::gen_c01(&mut sh, &o),
                 "C02" => gen_yuv::gen_c02(&mut sh, &o),
                 "C08" => gen_yuv::gen_c08(&mut sh, &o),
+                "C03" => gen_tf::gen_c03(&mut sh, &o),
+                "C10" => gen_tf::gen_c10(&mut sh, &o),
                 "C16" => {
                     let a = gen_yuv::gen_c16_yuv(&mut sh, &o);
-                    serde_json::json!({"grey_codes": a})
+                    let b = gen_tf::gen_c16_tf(&mut sh, &o);
+                    serde_json::json!({"grey_codes": a, "curve_anchor_samples": b, "samples": a + b})
                 }
                 _ => {
                     eprintln!("unknown property {prop}");
